@@ -2,13 +2,17 @@ package c08
 
 import (
 	"fmt"
+	"math"
 	"sort"
+	"strconv"
+	"strings"
 	"testing"
 
 	"pgregory.net/rapid"
 
 	"github.com/evolbioinfo/gotree/tree"
 
+	"verif/internal/cli"
 	"verif/internal/gen"
 	"verif/internal/gt"
 	"verif/internal/h"
@@ -396,5 +400,118 @@ func TestC08Reject(t *testing.T) {
 		},
 		Check:    checkRej,
 		Classify: func(c RejCase) (bool, []string) { return true, []string{"kind:" + c.Kind} },
+	})
+}
+
+// ---------------------------------------------------------------------------------------
+// command level: gotree compare trees [-l] [--binary | --rf | --weighted] [-t n]
+
+type CliCase struct {
+	Ref     *ref.Node   `json:"ref"`
+	Comps   []*ref.Node `json:"comps"`
+	Tips    bool        `json:"tips"`
+	Mode    string      `json:"mode"` // table | binary | rf | weighted
+	Threads int         `json:"threads"`
+}
+
+func checkCli(c CliCase) error {
+	if !cli.Available() {
+		return fmt.Errorf("harness: gotree binary not built")
+	}
+	tx, err := ref.NewTaxa(c.Ref.Tips())
+	if err != nil {
+		return err
+	}
+	dir := cli.Scratch()
+	var comps strings.Builder
+	for _, m := range c.Comps {
+		comps.WriteString(ref.Write(m) + "\n")
+	}
+	args := []string{"compare", "trees", "-i", cli.Write(dir, "ref.nw", ref.Write(c.Ref)+"\n"), "-c", cli.Write(dir, "comp.nw", comps.String()), "-t", strconv.Itoa(c.Threads)}
+	if c.Tips {
+		args = append(args, "-l")
+	}
+	switch c.Mode {
+	case "binary":
+		args = append(args, "--binary")
+	case "rf":
+		args = append(args, "--rf")
+	case "weighted":
+		args = append(args, "--weighted")
+	}
+	r := cli.Run(dir, "", args...)
+	ctx := fmt.Sprintf(" (gotree %v)\n ref %s\n%s", args, ref.Write(c.Ref), comps.String())
+	if r.Code != 0 || r.TimedOut {
+		return fmt.Errorf("command failed with status %d: %s%s", r.Code, r.Stderr, ctx)
+	}
+	lines := strings.Split(strings.TrimRight(r.Stdout, "\n"), "\n")
+	if c.Mode != "rf" {
+		lines = lines[1:] // header
+	}
+	if len(lines) != len(c.Comps) {
+		return fmt.Errorf("%d result lines for %d compared trees%s", len(lines), len(c.Comps), ctx)
+	}
+	seen := map[int]bool{}
+	for li, l := range lines {
+		f := strings.Split(l, "\t")
+		id := li // --rf prints no identifier: file order
+		if c.Mode != "rf" {
+			id, err = strconv.Atoi(f[0])
+			if err != nil || id < 0 || id >= len(c.Comps) || seen[id] {
+				return fmt.Errorf("bad or repeated tree identifier in line %q%s", l, ctx)
+			}
+			seen[id] = true
+		}
+		e, err := expected(tx, c.Ref, c.Comps[id], c.Tips)
+		if err != nil {
+			return err
+		}
+		switch c.Mode {
+		case "table":
+			if want := fmt.Sprintf("%d\t%d\t%d\t%d", id, e.t1, e.common, e.t2); l != want {
+				return fmt.Errorf("line %q, expected %q (tree, reference-only, common, compared-only)%s", l, want, ctx)
+			}
+		case "binary":
+			if want := fmt.Sprintf("%d\t%v", id, e.same); l != want {
+				return fmt.Errorf("line %q, expected %q%s", l, want, ctx)
+			}
+		case "rf":
+			if want := strconv.Itoa(e.t1 + e.t2); l != want {
+				return fmt.Errorf("line %d is %q, the Robinson-Foulds distance of compared tree %d is %s%s", li, l, li, want, ctx)
+			}
+		case "weighted":
+			wrf, kf := 0.0, 0.0
+			for _, d := range e.wc {
+				wrf += math.Abs(d)
+				kf += d * d
+			}
+			for _, x := range append(append([]float64{}, e.w1...), e.w2...) {
+				wrf += x
+				kf += x * x
+			}
+			kf = math.Sqrt(kf)
+			gw, err1 := strconv.ParseFloat(f[1], 64)
+			gk, err2 := strconv.ParseFloat(f[2], 64)
+			// printed with %E (7 significant digits); the order of the additions is free
+			if err1 != nil || err2 != nil || math.Abs(gw-wrf) > 1e-6*math.Max(1, wrf) || math.Abs(gk-kf) > 1e-6*math.Max(1, kf) {
+				return fmt.Errorf("line %q, expected weighted RF %E and KF %E%s", l, wrf, kf, ctx)
+			}
+		}
+	}
+	return nil
+}
+
+func TestC08Cli(t *testing.T) {
+	h.Run(t, h.Spec[CliCase]{
+		Property: "C08", Name: "cli", Quick: 1600, Thorough: 32000,
+		Rule: "the same related tree pairs (1-5 compared trees) through `gotree compare trees` in its four output modes (count table, --binary, --rf, --weighted), with and without -l, with 1-8 threads: every printed column is recomputed from the reference split sets (counts exactly; weighted RF and KF to the 7 printed digits); identifiers must be those of the file, --rf lines must be in file order; non-trivial = >= 2 compared trees",
+		Gen: func(t *rapid.T, thorough bool) CliCase {
+			b := genCase(t, false)
+			return CliCase{Ref: b.Ref, Comps: b.Comps, Tips: b.Tips, Mode: rapid.SampledFrom([]string{"table", "binary", "rf", "weighted"}).Draw(t, "mode"), Threads: rapid.SampledFrom([]int{1, 1, 2, 4, 8}).Draw(t, "threads")}
+		},
+		Check: checkCli,
+		Classify: func(c CliCase) (bool, []string) {
+			return len(c.Comps) >= 2, []string{"mode:" + c.Mode, fmt.Sprintf("threads:%d", c.Threads)}
+		},
 	})
 }
